@@ -187,9 +187,57 @@ def check_string_job(args):
     out['fns'] = sorted(out['fns']); out['models'] = sorted(out['models'])
     return out
 
+PRELUDE = ['Token', 'Whitespace', 'Id', 'Semi', 'Start', 'Whitespace', 'Id', 'Semi', 'Id', 'Colon', 'Id', 'Semi']      # token A;start s;s:A;
+
+def smoke_text(kinds):
+    """grammar text for a token-kind sequence: the prelude is `token A; start s; s: A;`, new rules are called h, references go to A"""
+    lex = {'LineComment': '//c\n', 'BlockComment': '/*c*/', 'DocComment': '///d\n', 'Whitespace': ' ', 'Token': 'token', 'Start': 'start', 'Right': 'right',
+           'Skip': 'skip', 'Part': 'part', 'Colon': ':', 'Semi': ';', 'Equal': '=', 'LPar': '(', 'RPar': ')', 'LBrak': '[', 'RBrak': ']', 'Or': '|', 'Star': '*',
+           'Plus': '+', 'Hat': '^', 'Tilde': '~', 'And': '&', 'Slash': '/', 'Str': "'x'", 'Predicate': '?1', 'Action': '#1', 'Assertion': '!1', 'NodeRename': '@r',
+           'NodeMarker': '<1', 'NodeCreation': '1>n', 'Error': '$'}
+    pre_ids = ['A', 's', 's', 'A']; out = []; ids = 0; n0 = len(PRELUDE); decl_start = True
+    for i, k in enumerate(kinds):
+        if k == 'Id':
+            if i < n0: t = pre_ids[ids]; ids += 1
+            else:
+                nxt = kinds[i + 1] if i + 1 < len(kinds) else None; nxt2 = kinds[i + 2] if i + 2 < len(kinds) else None
+                t = 'h' if decl_start and (nxt == 'Colon' or (nxt == 'Hat' and nxt2 == 'Colon')) else ('B' if i > 0 and kinds[i - 1] in ('Token',) else 'A')
+        else: t = lex[k]
+        if out and (out[-1][-1:].isalnum() or out[-1][-1:] in "_>") and (t[:1].isalnum() or t[:1] == '_'): out.append(' ')
+        out.append(t)
+        decl_start = (k == 'Semi')
+    return ''.join(out) + '\n'
+
+def sema_smoke_job(args):
+    """grammar files = a fixed valid prelude + every declaration suffix of k tokens that is a sentence of the grammar
+    language (the suffix is symbolic, the solver prunes non-sentences); returns one witness per parser path.  The witnesses are
+    then run through the REAL tokenize + Parser + SemanticPass natively (sema itself is not executed symbolically)."""
+    mir_path, k = args
+    out = dict(k=k, paths=0, steps=0, queries=0, solver_time=0.0, witnesses=[], inconclusive=[], fns=set(), models=set(), smoke=True)
+    try:
+        from . import c13
+        from .oracle import Oracle
+        fp = get_fp(mir_path)
+        G = c13.reference_grammar(); tokidx = {tk: i for i, tk in enumerate(fp.tokens)}
+        n0 = len(PRELUDE); n = n0 + k
+        triv = [tokidx[x] for x in c13.TRIVIA] + [tokidx['Error']]
+        def constraint(tv):
+            cs = [tv[i] == tokidx[PRELUDE[i]] for i in range(n0)]
+            cs += [z3.And(*[tv[n0 + j] != x for x in triv]) for j in range(k)]
+            cs.append(Oracle(G.rules_dict(), 'file', tv[n0:], tokidx).member())
+            return cs
+        results, st = frontend.explore_front(fp, n, extra_pc_fn=constraint)
+        out['paths'] = len(results); out['steps'] = st['steps']; out['queries'] = st['queries']; out['solver_time'] = st['solver_time']
+        out['fns'] = set(st['fns']); out['models'] = set(st['models'])
+        for r in results: out['witnesses'].append(r.witness)
+    except Unsupported as e: out['inconclusive'].append(f'sema smoke k={k}: {e}')
+    except Exception as e: out['inconclusive'].append(f'sema smoke k={k}: internal error {e!r} {traceback.format_exc()[-400:]}')
+    out['fns'] = sorted(out['fns']); out['models'] = sorted(out['models'])
+    return out
+
 def main(t, sd):
     t0 = time.time()
-    N = {'quick': 4, 'thorough': 5}[t]; NS = {'quick': 6, 'thorough': 8}[t]
+    N = {'quick': 4, 'thorough': 5}[t]; NS = {'quick': 6, 'thorough': 8}[t]; KS = {'quick': 5, 'thorough': 6}[t]
     exe = build_fe_native()
     fp0 = frontend.FrontProgram()
     mir = fp0.mir_path
@@ -200,12 +248,12 @@ def main(t, sd):
         results, st = frontend.explore_front(fp0, n, max_paths=60 if n >= 3 else None, bfs=True)
         first.append((n, results, st))
         for p in st['pending']: tasks.append((mir, n, p, 0.06 if n >= 4 else 0.5))
-    res = []; sres = []
+    res = []; sres = []; smoke = []
     with ProcessPoolExecutor(workers) as ex:
-        futs = [ex.submit(shard_job, a) for a in tasks] + [ex.submit(check_string_job, (mir, k)) for k in range(2, NS + 1)]
+        futs = [ex.submit(shard_job, a) for a in tasks] + [ex.submit(check_string_job, (mir, k)) for k in range(2, NS + 1)] + [ex.submit(sema_smoke_job, (mir, k)) for k in range(1, KS + 1)]
         for f in as_completed(futs):
             r = f.result()
-            (sres if 'diag_paths' in r else res).append(r)
+            (smoke if r.get('smoke') else (sres if 'diag_paths' in r else res)).append(r)
     viol = []; inconc = []; paths = 0; steps = 0; queries = 0; stime = 0.0; fns = set(); mods = set(); wits = []; forks = 0
     for n, results, st in first:
         paths += len(results); steps += st['steps']; queries += st['queries']; stime += st['solver_time']; fns |= set(st['fns']); mods |= set(st['models'])
@@ -230,11 +278,24 @@ def main(t, sd):
         d = compare_front_native(fp0, w, o)
         if d: mism.append(f"{[fp0.tokens[k] for k in w['witness']]}: {d[:300]}")
         if o.get('sema_panic') or o.get('sema_spans_ok') is False: sema_panics += 1
+    # semantic analysis on solver-enumerated grammar files (native execution of the real SemanticPass on one representative per parser path)
+    smoke_paths = 0; smoke_run = 0
+    for r in smoke:
+        smoke_paths += r['paths']; steps += r['steps']; queries += r['queries']; stime += r['solver_time']; inconc += r['inconclusive']
+        texts = [smoke_text([fp0.tokens[k] for k in w]) for w in r['witnesses']]
+        for w, txt, o in zip(r['witnesses'], texts, fe_native_run(exe, ['TEXT ' + x.encode().hex() for x in texts]) if texts else []):
+            smoke_run += 1
+            if o.get('panic') or o.get('bad_spans'):
+                viol.append(dict(kind='sema-panic' if o.get('panic') else 'sema-span', n=len(w), witness=w, text=txt, smoke=True,
+                                 detail='the real front end (tokenize + Parser + SemanticPass::run) ' + ('panics' if o.get('panic') else f"reports spans {o.get('bad_spans')} outside the text or inside a character") + f' on the grammar file {txt!r} enumerated by the solver'))
     reported = []
     known = load_known()
     viol = [v for v in viol if v['kind'] != 'string-escape-diagnostics']
     for v in viol:
-        if 'text' in v:
+        if v.get('smoke'):
+            o = fe_native_run(exe, ['TEXT ' + v['text'].encode().hex()])[0]
+            v['native'] = o; v['replay_text'] = v['text']; v['confirmed'] = bool(o.get('panic') or o.get('bad_spans'))
+        elif 'text' in v:
             full = "token A=" + v['text'] + ";\nstart s;\ns: A;\n"
             o = fe_native_run(exe, ['TEXT ' + full.encode().hex()])[0]
             v['native'] = o; v['replay_text'] = full
@@ -242,14 +303,14 @@ def main(t, sd):
         else:
             o = fe_native_run(exe, [' '.join(fp0.tokens[k] for k in v['witness'])])[0]
             v['native'] = o if len(json.dumps(o)) < 2000 else '...'
-            v['confirmed'] = bool(o.get('panic')) if not o.get('unlexable') else None
-    return finish(t, sd, t0, N, NS, paths, spaths, steps, queries, stime, fns, mods, viol, inconc, validated, unlexable, mism, sema_panics, forks, wits, fp0)
+            v['confirmed'] = bool(o.get('panic') or o.get('sema_panic') or o.get('sema_spans_ok') is False) if not o.get('unlexable') else None
+    return finish(t, sd, t0, N, NS, paths, spaths, steps, queries, stime, fns, mods, viol, inconc, validated, unlexable, mism, sema_panics, forks, wits, fp0, smoke_paths, smoke_run, KS)
 
 def load_known():
     from .cli import load_known as lk
     return lk()
 
-def finish(t, sd, t0, N, NS, paths, spaths, steps, queries, stime, fns, mods, viol, inconc, validated, unlexable, mism, sema_panics, forks, wits, fp0):
+def finish(t, sd, t0, N, NS, paths, spaths, steps, queries, stime, fns, mods, viol, inconc, validated, unlexable, mism, sema_panics, forks, wits, fp0, smoke_paths=0, smoke_run=0, KS=0):
     from .cli import match_known, VERIF
     known = load_known()
     reported = 0; seen = set(); known_hits = {}
@@ -279,7 +340,7 @@ def finish(t, sd, t0, N, NS, paths, spaths, steps, queries, stime, fns, mods, vi
                samples=samples or [{'note': 'none'}], exhaustive=not inconc,
                explanation='states = leaves + fork nodes of the decision trees of the front-end parser (per input length) and of check_string (per string length); transitions = MIR statements executed',
                bounds=dict(max_lexical_items=N, token_kinds=fp0.NTOK - 1, string_chars_max=NS, tier=t),
-               parser_paths=paths, check_string_paths=spaths, solver_queries=queries, solver_time_s=round(stime, 3),
+               parser_paths=paths, check_string_paths=spaths, sema_smoke=dict(prelude=' '.join(PRELUDE), suffix_tokens_max=KS, parser_paths=smoke_paths, grammar_files_run_through_real_sema=smoke_run, note='SemanticPass::run is executed natively on one solver-chosen representative per parser path; it is not executed symbolically'), solver_queries=queries, solver_time_s=round(stime, 3),
                functions_encoded=sorted(fns), std_models=sorted(mods),
                witnesses_not_producible_by_the_real_lexer=unlexable, native_sema_panics_or_bad_spans_on_validated_witnesses=sema_panics,
                inconclusive=inconc[:40], engine_native_mismatches=mism[:20], known_findings_hit=known_hits, violations_reported=reported)
@@ -290,6 +351,7 @@ def finish(t, sd, t0, N, NS, paths, spaths, steps, queries, stime, fns, mods, vi
                            'codespan Diagnostic/Label builders are modelled (severity, message, first label)'])
     os.makedirs(os.path.join(VERIF, 'evidence'), exist_ok=True)
     json.dump(ev, open(os.path.join(VERIF, 'evidence', 'C12.json'), 'w'), indent=1, default=str)
+    print(f"C12: sema smoke: {smoke_paths} parser paths over prelude + suffix <= {KS} tokens, {smoke_run} grammar files run through the real SemanticPass")
     print(f"C12: tier={t} N={N} parser_paths={paths} check_string_paths={spaths} validated={validated} (unlexable {unlexable}) violations={reported} known={sum(known_hits.values())} inconclusive={len(inconc)} mismatches={len(mism)} sema_panics={sema_panics} wall={time.time() - t0:.1f}s")
     if reported: return 1
     if inconc or mism or sema_panics:
